@@ -3,7 +3,7 @@
     types of the same shape, andb/orb to (&&)/(||). Numbers, strings and everything else stay
     extracted inductives. *)
 From Coq Require Import ExtrOcamlBasic List NArith String.
-From Seccomp Require Import Words Result Machine Assembler Policy Spec.
+From Seccomp Require Import Words Result Machine Assembler Policy Spec Raw KernelCheck.
 Extraction Language OCaml.
 Set Extraction Optimize.
 
@@ -11,6 +11,7 @@ Definition n_ten : N := 10.
 Definition n_divmod10 (n:N) : N * N := N.div_eucl n 10.
 
 Extraction "model.ml"
-  n_ten n_divmod10 N.add N.mul N.eqb N.ltb N.leb N.of_nat N.to_nat
+  n_ten n_divmod10 N.add N.mul N.eqb N.ltb N.leb N.lor N.of_nat N.to_nat
+  encode kernel_check run_raw
   build items_of assemble exec run run_event word_at wf_eventb
   compile compile_group to_syscalls gen_group decide group_matches ret_word.
